@@ -3,8 +3,8 @@ Proofs/RunSafe.lean — no host panic, and no nil cell where code continues.
 
 A third pass over the VM's mutual block, by induction on the fuel (`sSpec`), next to the calling
 contract for normal returns (`allSpec'`) and for errors (`errSpec`): from a state that satisfies
-the table invariant, whose stacks hold no nil cell and whose scope stack is not empty (`G`), no
-function of the mutual block ends in a host panic, and when it returns normally the state is `G`
+the table invariant, whose stacks hold no nil cell and whose scope stack is not empty (`NoNil`), no
+function of the mutual block ends in a host panic, and when it returns normally the state is `NoNil`
 again. Nil cells only come from `restoreControlState` growing a stack; on the way of a normal
 return every restore is exact (`restoreSt_same`), and after an error nothing runs any more
 (every evaluator re-raises), so the padding `Run`'s restore may leave never meets an instruction.
@@ -20,14 +20,14 @@ open ZygoVerif.Core ZygoVerif.VM ZygoVerif.Bal ZygoVerif.Refine ZygoVerif.TailVM
 
 /-- no nil cell on any stack, a scope to bind in, and every lazy argument still to be forced
 captured a non-empty scope stack -/
-structure G (s : St) : Prop where
+structure NoNil (s : St) : Prop where
   good : VMSafe.Good s
   lin : s.linear ≠ []
   lz : ∀ z ∈ s.lazies, z.value = none → z.stack ≠ []
 
-/-- `m` does not end in a host panic from `s`, and if it returns normally the state is `G` -/
+/-- `m` does not end in a host panic from `s`, and if it returns normally the state is `NoNil` -/
 def Safe {α} (m : M α) (s : St) : Prop :=
-  ∀ r s', m.run s = (r, s') → r ≠ .error .panic ∧ (∀ a, r = .ok a → G s')
+  ∀ r s', m.run s = (r, s') → r ≠ .error .panic ∧ (∀ a, r = .ok a → NoNil s')
 
 theorem simple_isCall (i : Instr) (h : simple i = true) : VMSafe.isCall i = false := by
   cases i <;> first | rfl | cases h
@@ -188,10 +188,10 @@ theorem exec_simple_lz (n : Nat) (i : Instr) (s : St) (hs : simple i = true) (hp
     · rfl
 
 /-- **A non-call instruction of a `Running` loop over a non-empty base scope stack does not
-panic, and leaves a `G` state** (whatever its outcome). -/
-theorem exec_simple_safe {b : Base} {s : St} {top : Act} {rest : List Act} (hg : G s) (hr : Running b s top rest)
+panic, and leaves a `NoNil` state** (whatever its outcome). -/
+theorem exec_simple_safe {b : Base} {s : St} {top : Act} {rest : List Act} (hg : NoNil s) (hr : Running b s top rest)
     (hb : b.linear ≠ []) {i : Instr} (hf : (fnOf s s.curfunc).code[s.pc.toNat]? = some i) (hs : simple i = true) (n : Nat) :
-    ((exec (n + 1) i).run s).1 ≠ .error .panic ∧ G ((exec (n + 1) i).run s).2 := by
+    ((exec (n + 1) i).run s).1 ≠ .error .panic ∧ NoNil ((exec (n + 1) i).run s).2 := by
   obtain ⟨hgood, hpan⟩ := VMSafe.exec_step_safe n i (simple_isCall i hs) s hg.good
   obtain ⟨hl, _⟩ := exec_simple_above_la hr hf hs n
   have hne : ((exec (n + 1) i).run s).2.linear ≠ [] := by
@@ -214,28 +214,28 @@ theorem exec_simple_safe {b : Base} {s : St} {top : Act} {rest : List Act} (hg :
     rw [this]
     exact hg.lz
 
-/-! ## Small facts about `G` -/
+/-! ## Small facts about `NoNil` -/
 
-theorem G.same {s s' : St} (h : G s) (h1 : s'.data = s.data) (h2 : s'.linear = s.linear) (h3 : s'.addr = s.addr)
-    (h4 : s'.suspended = s.suspended) (h5 : s'.lazies = s.lazies) : G s' :=
+theorem NoNil.same {s s' : St} (h : NoNil s) (h1 : s'.data = s.data) (h2 : s'.linear = s.linear) (h3 : s'.addr = s.addr)
+    (h4 : s'.suspended = s.suspended) (h5 : s'.lazies = s.lazies) : NoNil s' :=
   ⟨⟨by rw [h1]; exact h.good.data, by rw [h2]; exact h.good.linear, by rw [h3]; exact h.good.addr,
     by rw [h4]; exact h.good.susp, by rw [h5]; exact h.good.lazies⟩, by rw [h2]; exact h.lin, by rw [h5]; exact h.lz⟩
 
-theorem G.setData {s : St} (h : G s) (d : List (Option Val)) (hd : VMSafe.allSome d) : G { s with data := d } :=
+theorem NoNil.setData {s : St} (h : NoNil s) (d : List (Option Val)) (hd : VMSafe.allSome d) : NoNil { s with data := d } :=
   ⟨⟨hd, h.good.linear, h.good.addr, h.good.susp, h.good.lazies⟩, h.lin, h.lz⟩
 
-theorem G.push {s : St} (h : G s) (v : Val) : G { s with data := some v :: s.data } :=
+theorem NoNil.push {s : St} (h : NoNil s) (v : Val) : NoNil { s with data := some v :: s.data } :=
   h.setData _ (VMSafe.allSome_cons h.good.data)
 
 theorem res_err {α} {s' : St} : (Except.error Fault.err : Except Fault α) ≠ .error .panic ∧
-    (∀ a, (Except.error Fault.err : Except Fault α) = .ok a → G s') := ⟨(by intro h; cases h), fun a ha => (by cases ha)⟩
+    (∀ a, (Except.error Fault.err : Except Fault α) = .ok a → NoNil s') := ⟨(by intro h; cases h), fun a ha => (by cases ha)⟩
 theorem res_timeout {α} {s' : St} : (Except.error Fault.timeout : Except Fault α) ≠ .error .panic ∧
-    (∀ a, (Except.error Fault.timeout : Except Fault α) = .ok a → G s') := ⟨(by intro h; cases h), fun a ha => (by cases ha)⟩
-theorem res_ok {α} {s' : St} (a : α) (h : G s') : (Except.ok a : Except Fault α) ≠ .error .panic ∧
-    (∀ a', (Except.ok a : Except Fault α) = .ok a' → G s') := ⟨(by intro h; cases h), fun _ _ => h⟩
+    (∀ a, (Except.error Fault.timeout : Except Fault α) = .ok a → NoNil s') := ⟨(by intro h; cases h), fun a ha => (by cases ha)⟩
+theorem res_ok {α} {s' : St} (a : α) (h : NoNil s') : (Except.ok a : Except Fault α) ≠ .error .panic ∧
+    (∀ a', (Except.ok a : Except Fault α) = .ok a' → NoNil s') := ⟨(by intro h; cases h), fun _ _ => h⟩
 
 theorem Safe.bind {α β} {m : M α} {k : α → M β} {s : St} (hm : Safe m s)
-    (hk : ∀ a s1, m.run s = (.ok a, s1) → G s1 → Safe (k a) s1) : Safe (m >>= k) s := by
+    (hk : ∀ a s1, m.run s = (.ok a, s1) → NoNil s1 → Safe (k a) s1) : Safe (m >>= k) s := by
   intro r s' h
   rw [run_bind] at h
   rcases hr : m.run s with ⟨r1, s1⟩
@@ -250,7 +250,7 @@ theorem Safe.bind {α β} {m : M α} {k : α → M β} {s : St} (hm : Safe m s)
     | panic => exact absurd rfl hn
     | timeout => exact res_timeout
 
-theorem Safe.pure {α} (a : α) {s : St} (h : G s) : Safe (pure a : M α) s := by
+theorem Safe.pure {α} (a : α) {s : St} (h : NoNil s) : Safe (pure a : M α) s := by
   intro r s' hr; rw [run_pure] at hr; cases hr; exact res_ok a h
 
 theorem Safe.err {α} (s : St) : Safe (VM.err : M α) s := by
@@ -280,7 +280,7 @@ theorem callFunction_frame (f k : Nat) (s s' : St) (r : Except Fault Unit) (h : 
         | ok u => simp only [run_modify] at h; cases h; exact ⟨h1.1, h2⟩
         | error e => cases h; exact ⟨h1.1, h2⟩
 
-theorem callFunction_safe' (f k : Nat) (s : St) (hg : G s) : Safe (callFunction f k) s := by
+theorem callFunction_safe' (f k : Nat) (s : St) (hg : NoNil s) : Safe (callFunction f k) s := by
   intro r s' hr
   obtain ⟨hgood, hpan⟩ := VMSafe.callFunction_safe f k s hg.good
   obtain ⟨hl, hz⟩ := callFunction_frame f k s s' r hr
@@ -288,7 +288,7 @@ theorem callFunction_safe' (f k : Nat) (s : St) (hg : G s) : Safe (callFunction 
   have hne : s'.linear ≠ [] := by rw [hl]; exact hg.lin
   exact ⟨fun hp => hne (hpan (by rw [hp])), fun a _ => ⟨hgood, hne, by rw [hz]; exact hg.lz⟩⟩
 
-theorem runTail_safe (s : St) (hg : G s) : Safe runTail s := by
+theorem runTail_safe (s : St) (hg : NoNil s) : Safe runTail s := by
   intro r s' hr
   unfold runTail at hr
   simp only [run_bind, run_get] at hr
@@ -304,36 +304,36 @@ theorem runTail_safe (s : St) (hg : G s) : Safe runTail s := by
       refine res_ok _ (hg.setData rest ?_)
       have := hg.good.data; rw [hd] at this; exact VMSafe.allSome_tail this
 
-/-- the specifications "no host panic, `G` on a normal return" of the mutual block, at one fuel -/
+/-- the specifications "no host panic, `NoNil` on a normal return" of the mutual block, at one fuel -/
 structure SSpec (n : Nat) : Prop where
-  exec : ∀ (b : Base) (s : St) (top : Act) (rest : List Act) (i : Instr), G s → WF s → Running b s top rest → b.linear ≠ [] →
+  exec : ∀ (b : Base) (s : St) (top : Act) (rest : List Act) (i : Instr), NoNil s → WF s → Running b s top rest → b.linear ≠ [] →
     (fnOf s s.curfunc).code[s.pc.toNat]? = some i → Safe (exec n i) s
-  resolved : ∀ (s : St) (f : Val) (args : List Expr), G s → WF s → vok s.fns.length f = true → okLs args = true →
+  resolved : ∀ (s : St) (f : Val) (args : List Expr), NoNil s → WF s → vok s.fns.length f = true → okLs args = true →
     Safe (callResolved n f args) s
-  loop : ∀ (b : Base) (st : CtlState) (s : St), G s → WF s → Live b s → b.linear ≠ [] → b.pc = -2 → b.main = false →
+  loop : ∀ (b : Base) (st : CtlState) (s : St), NoNil s → WF s → Live b s → b.linear ≠ [] → b.pc = -2 → b.main = false →
     Safe (runLoop n st) s
-  run : ∀ (b : Base) (s : St) (top : Act), G s → WF s → Running b s top [] → b.linear ≠ [] → b.pc = -2 → b.main = false →
+  run : ∀ (b : Base) (s : St) (top : Act), NoNil s → WF s → Running b s top [] → b.linear ≠ [] → b.pc = -2 → b.main = false →
     Safe (run n) s
-  nested : ∀ (f : Nat) (st : CtlState) (s : St), G s → WF s → 2 ≤ f → f < s.fns.length →
+  nested : ∀ (f : Nat) (st : CtlState) (s : St), NoNil s → WF s → 2 ≤ f → f < s.fns.length →
     (fnOf s f).params.length = 0 → s.pc = -2 → ∀ r s', (nested n f st).run s = (r, s') →
-    r ≠ .error .panic ∧ (∀ v, r = .ok v → ∃ s2, s' = restoreSt st s2 ∧ G s2 ∧ s2.data.length = s.data.length ∧
+    r ≠ .error .panic ∧ (∀ v, r = .ok v → ∃ s2, s' = restoreSt st s2 ∧ NoNil s2 ∧ s2.data.length = s.data.length ∧
       s2.linear = s.linear ∧ s2.addr = s.addr ∧ s2.suspended = s.suspended ∧ TExt s s2)
-  eval : ∀ (e : Expr) (s : St), G s → WF s → okL e = true → Safe (evalCallExpr n e) s
-  prep : ∀ (f : Option FnObj) (i : Nat) (args : List Expr) (s : St), G s → WF s → okLs args = true → Safe (prepareArgs n f i args) s
-  user : ∀ (name : String) (k : Nat) (s : St) (tail : List Cell), G s → WF s →
+  eval : ∀ (e : Expr) (s : St), NoNil s → WF s → okL e = true → Safe (evalCallExpr n e) s
+  prep : ∀ (f : Option FnObj) (i : Nat) (args : List Expr) (s : St), NoNil s → WF s → okLs args = true → Safe (prepareArgs n f i args) s
+  user : ∀ (name : String) (k : Nat) (s : St) (tail : List Cell), NoNil s → WF s →
     s.data.map cellOf = List.replicate k .val ++ tail → Safe (callUser n name k) s
-  builtin : ∀ (name : String) (args : List Val) (s : St), G s → WF s → s.pc = -1 → (∀ a ∈ args, vok s.fns.length a = true) →
+  builtin : ∀ (name : String) (args : List Val) (s : St), NoNil s → WF s → s.pc = -1 → (∀ a ∈ args, vok s.fns.length a = true) →
     Safe (builtin n name args) s
-  apply : ∀ (f : Val) (args : List Val) (s : St), G s → WF s → s.pc = -1 → vok s.fns.length f = true →
+  apply : ∀ (f : Val) (args : List Val) (s : St), NoNil s → WF s → s.pc = -1 → vok s.fns.length f = true →
     (∀ a ∈ args, vok s.fns.length a = true) → Safe (applyFn n f args) s
-  mapArr : ∀ (f : Val) (r i k : Nat) (s : St), G s → WF s → s.pc = -1 → vok s.fns.length f = true → Safe (mapArr n f r i k) s
-  mapList : ∀ (f l : Val) (s : St), G s → WF s → s.pc = -1 → vok s.fns.length f = true → vok s.fns.length l = true →
+  mapArr : ∀ (f : Val) (r i k : Nat) (s : St), NoNil s → WF s → s.pc = -1 → vok s.fns.length f = true → Safe (mapArr n f r i k) s
+  mapList : ∀ (f l : Val) (s : St), NoNil s → WF s → s.pc = -1 → vok s.fns.length f = true → vok s.fns.length l = true →
     Safe (mapList n f l) s
-  force : ∀ (id : Nat) (s : St), G s → WF s → Safe (forceLazy n id) s
+  force : ∀ (id : Nat) (s : St), NoNil s → WF s → Safe (forceLazy n id) s
 
 /-! ## `runLoop`, `run`, `nested` -/
 
-theorem loop_safe (n : Nat) (ih : AllSpec n) (ihs : SSpec n) (b : Base) (st : CtlState) (s : St) (hg : G s) (hw : WF s)
+theorem loop_safe (n : Nat) (ih : AllSpec n) (ihs : SSpec n) (b : Base) (st : CtlState) (s : St) (hg : NoNil s) (hw : WF s)
     (hl : Live b s) (hbl : b.linear ≠ []) (hb : b.pc = -2) (hm : b.main = false) : Safe (runLoop (n + 1) st) s := by
   intro r s' hex
   rcases hl with ⟨top, rest, hr⟩ | hf
@@ -362,7 +362,7 @@ theorem loop_safe (n : Nat) (ih : AllSpec n) (ihs : SSpec n) (b : Base) (st : Ct
     cases hex
     exact res_ok _ hg
 
-theorem run_safe (n : Nat) (ih : AllSpec n) (ihs : SSpec n) (b : Base) (s : St) (top : Act) (hg : G s) (hw : WF s)
+theorem run_safe (n : Nat) (ih : AllSpec n) (ihs : SSpec n) (b : Base) (s : St) (top : Act) (hg : NoNil s) (hw : WF s)
     (hr : Running b s top []) (hbl : b.linear ≠ []) (hb : b.pc = -2) (hm : b.main = false) : Safe (run (n + 1)) s := by
   rw [run_succ_eq]
   refine Safe.bind (fun r s' h => by rw [run_capture] at h; cases h; exact res_ok _ hg) (fun st s1 h1 _ => ?_)
@@ -370,10 +370,10 @@ theorem run_safe (n : Nat) (ih : AllSpec n) (ihs : SSpec n) (b : Base) (s : St) 
   cases h1
   exact Safe.bind (ihs.loop b _ s hg hw (Or.inl ⟨top, [], hr⟩) hbl hb hm) (fun _ s2 _ hg2 => runTail_safe s2 hg2)
 
-theorem nested_safe (n : Nat) (ih : AllSpec n) (ihs : SSpec n) (f : Nat) (st : CtlState) (s : St) (hg : G s) (hw : WF s) (h2 : 2 ≤ f)
+theorem nested_safe (n : Nat) (ih : AllSpec n) (ihs : SSpec n) (f : Nat) (st : CtlState) (s : St) (hg : NoNil s) (hw : WF s) (h2 : 2 ≤ f)
     (hlt : f < s.fns.length) (hp0 : (fnOf s f).params.length = 0) (hpc : s.pc = -2) :
     ∀ r s', (nested (n + 1) f st).run s = (r, s') →
-    r ≠ .error .panic ∧ (∀ v, r = .ok v → ∃ s2, s' = restoreSt st s2 ∧ G s2 ∧ s2.data.length = s.data.length ∧
+    r ≠ .error .panic ∧ (∀ v, r = .ok v → ∃ s2, s' = restoreSt st s2 ∧ NoNil s2 ∧ s2.data.length = s.data.length ∧
       s2.linear = s.linear ∧ s2.addr = s.addr ∧ s2.suspended = s.suspended ∧ TExt s s2) := by
   intro r s' hex
   simp only [VM.nested] at hex
@@ -383,7 +383,7 @@ theorem nested_safe (n : Nat) (ih : AllSpec n) (ihs : SSpec n) (f : Nat) (st : C
   rcases hm : (do callFunction f 0; run n : M Val).run s with ⟨r0, s2⟩
   rw [hm] at hex
   -- the inner computation
-  have hinner : r0 ≠ .error .panic ∧ (∀ w, r0 = .ok w → G s2 ∧ s2.data.length = s.data.length ∧
+  have hinner : r0 ≠ .error .panic ∧ (∀ w, r0 = .ok w → NoNil s2 ∧ s2.data.length = s.data.length ∧
       s2.linear = s.linear ∧ s2.addr = s.addr ∧ s2.suspended = s.suspended ∧ TExt s s2) := by
     rw [run_bind] at hm
     rcases hc : (callFunction f 0).run s with ⟨r1, s1⟩
@@ -438,5 +438,167 @@ theorem nested_safe (n : Nat) (ih : AllSpec n) (ihs : SSpec n) (f : Nat) (st : C
     | timeout =>
       simp only [run_throw] at hex; cases hex
       exact ⟨(by intro h; cases h), fun v hv => (by cases hv)⟩
+
+/-! ## `evalCallExpr`, `prepareArgs` -/
+
+theorem runGen_res {α} (g : ZygoVerif.VM.G α) (s s' : St) (r : Except Fault α) (h : (runGen g).run s = (r, s')) :
+    r ≠ .error .panic := by
+  rw [run_runGen] at h
+  split at h
+  · cases h; intro h'; cases h'
+  · cases h; intro h'; cases h'
+
+theorem thunk_safe (n : Nat) (ihs : SSpec n) (name : String) (s1 : St) (code : List Instr) (cl : List (Option Nat))
+    (par : Option Nat) (hw1 : WF s1) (hc : AllOK (szS s1) code)
+    (hv : ∃ ann, verify { kind := .fn, nformals := 0, varargs := false, nfixed := 0, code := B s1.loops (code ++ [Instr.ret]) } ann = true)
+    (st : CtlState) (lin : List (Option Nat)) (susp : List (List (Option Nat)))
+    (hgt : NoNil (thunkSt s1 (thunkObj name code cl par) lin susp)) (r : Except Fault Val) (s' : St)
+    (hex : (nested n s1.fns.length st).run (thunkSt s1 (thunkObj name code cl par) lin susp) = (r, s')) :
+    r ≠ .error .panic ∧ (∀ v, r = .ok v → ∃ s2, s' = restoreSt st s2 ∧ NoNil s2 ∧ s2.data.length = s1.data.length ∧
+      s2.linear = lin ∧ s2.addr = s1.addr ∧ s2.suspended = susp ∧ TExt s1 s2) := by
+  obtain ⟨hw2, hg2⟩ := wf_mkThunk name code cl par hw1 hc hv
+  have hw3 : WF (thunkSt s1 (thunkObj name code cl par) lin susp) :=
+    hw2.mk' (TExt.same rfl rfl) (fun j h1 h2 => absurd h2 (Nat.not_lt.mpr h1)) hw2.loopstack hw2.scopes hw2.heap hw2.lazies hw2.data
+  have hfo : fnOf (thunkSt s1 (thunkObj name code cl par) lin susp) s1.fns.length = thunkObj name code cl par := by
+    show (s1.fns ++ [_]).getD s1.fns.length {} = _
+    rw [List.getD_eq_getElem?_getD, List.getElem?_append_right (Nat.le_refl _), Nat.sub_self]
+    rfl
+  obtain ⟨hn, hok⟩ := ihs.nested s1.fns.length st _ hgt hw3 hw1.two (by simp [thunkSt]) (by rw [hfo]; rfl) rfl r s' hex
+  refine ⟨hn, fun v hv' => ?_⟩
+  obtain ⟨s2, q1, q2, q3, q4, q5, q6, q7⟩ := hok v hv'
+  exact ⟨s2, q1, q2, q3, q4, q5, q6,
+    (show TExt s1 (thunkSt s1 (thunkObj name code cl par) lin susp) from ⟨⟨_, rfl⟩, ⟨[], by simp [thunkSt]⟩⟩).trans q7⟩
+
+theorem eval_safe (n : Nat) (ih : AllSpec n) (ihs : SSpec n) (e : Expr) (s : St) (hg : NoNil s) (hw : WF s) (hok : okL e = true) :
+    Safe (evalCallExpr (n + 1) e) s := by
+  intro r s' hex
+  unfold VM.evalCallExpr at hex
+  split at hex
+  · rename_i x
+    rw [run_bind, run_get] at hex
+    dsimp only at hex
+    split at hex
+    · simp only [run_pure] at hex; cases hex; exact res_ok _ hg
+    · rw [Sim.run_err] at hex; cases hex; exact res_err
+  · rw [run_bind, run_get] at hex
+    dsimp only at hex
+    rw [run_bind] at hex
+    rcases hgn : (runGen (compile (isFnScope s) {} e)).run s with ⟨r1, s1⟩
+    rw [hgn] at hex
+    have hnp1 := runGen_res _ s s1 r1 hgn
+    cases r1 with
+    | error er =>
+      cases hex
+      cases er with
+      | err => exact res_err
+      | panic => exact absurd rfl hnp1
+      | timeout => exact res_timeout
+    | ok ct =>
+      obtain ⟨code, t⟩ := ct
+      obtain ⟨hw1, he1, g1, g2, g3, g4, g5, g6, g7, g8, g9, hcode, hver⟩ := wf_runGen (isFnScope s) e code t hw hok hgn
+      have hg1 : NoNil s1 := hg.same g1 g2 g3 g6 g9
+      dsimp only at hex
+      split at hex
+      · simp only [run_pure] at hex; cases hex; exact res_ok _ hg1
+      · rw [run_bind, run_capture] at hex
+        dsimp only at hex
+        rw [run_bind, run_get] at hex
+        dsimp only at hex
+        rw [run_bind, run_mkFunction] at hex
+        dsimp only at hex
+        rw [run_bind, run_modify] at hex
+        dsimp only at hex
+        have hgt : NoNil (thunkSt s1 (thunkObj "callExprEval" code (closingNow s1) (some (captureOf s1).curfunc)) s1.linear s1.suspended) :=
+          hg1.same rfl rfl rfl rfl rfl
+        obtain ⟨hn, hok'⟩ := thunk_safe n ihs "callExprEval" s1 code _ _ hw1 hcode hver (captureOf s1) s1.linear s1.suspended hgt r s' hex
+        refine ⟨hn, fun v hv => ?_⟩
+        obtain ⟨s2, h1, hg2, d2, l2, a2, su2, _⟩ := hok' v hv
+        have hrs : s' = { s2 with curfunc := s1.curfunc, pc := s1.pc } := by
+          rw [h1]
+          exact restoreSt_same _ _ d2 (by rw [l2]; rfl) (by rw [a2]; rfl) (by rw [su2]; rfl)
+        rw [hrs]
+        exact hg2.same rfl rfl rfl rfl rfl
+
+def prepLazySt (s : St) (e : Expr) : St :=
+  { s with lazies := s.lazies ++ [({ e, stack := s.linear, curfunc := s.curfunc, value := none } : LazyObj)],
+           data := some (.lazy s.lazies.length) :: s.data }
+
+theorem prep_safe (n : Nat) (ih : AllSpec n) (ihs : SSpec n) (args : List Expr) (f : Option FnObj) (i : Nat) (s : St) (hg : NoNil s)
+    (hw : WF s) (hok : okLs args = true) : Safe (prepareArgs (n + 1) f i args) s := by
+  cases args with
+  | nil =>
+    intro r s' hex
+    simp only [VM.prepareArgs, run_pure] at hex
+    cases hex
+    exact res_ok _ hg
+  | cons e es =>
+    simp only [okLs, Bool.and_eq_true] at hok
+    -- one operand, then the rest
+    have lazyStep : Safe (do
+        let t ← get
+        set { t with lazies := t.lazies ++ [({ e, stack := t.linear, curfunc := t.curfunc, value := none } : LazyObj)] }
+        pushData (.lazy t.lazies.length)
+        prepareArgs n f (i + 1) es : M Unit) s := by
+      intro r s' hex
+      obtain ⟨s1, hw1, _, _, _, hk⟩ := prep_lazy_any e _ s s' r hw hok.1 hex
+      -- the state after the push, explicitly
+      rw [run_bind, run_get] at hex
+      dsimp only at hex
+      rw [run_bind, run_set] at hex
+      dsimp only at hex
+      rw [run_bind, run_pushData] at hex
+      dsimp only at hex
+      have hg1 : NoNil (prepLazySt s e) := by
+        refine ⟨⟨VMSafe.allSome_cons hg.good.data, hg.good.linear, hg.good.addr, hg.good.susp, ?_⟩, hg.lin, ?_⟩
+        · intro z hz
+          rcases List.mem_append.mp hz with hm | hm
+          · exact hg.good.lazies z hm
+          · simp only [List.mem_cons, List.mem_nil_iff, or_false] at hm; subst hm; exact hg.good.linear
+        · intro z hz hv
+          rcases List.mem_append.mp hz with hm | hm
+          · exact hg.lz z hm hv
+          · simp only [List.mem_cons, List.mem_nil_iff, or_false] at hm; subst hm; exact hg.lin
+      have hw1' : WF (prepLazySt s e) := by
+        refine hw.grow (TExt.same rfl rfl) (fun j h1 h2 => absurd h2 (Nat.not_lt.mpr h1)) rfl rfl rfl ?_ ?_
+        · intro lz hlz
+          rcases List.mem_append.mp hlz with hm | hm
+          · left; exact hm
+          · right
+            simp at hm; subst hm
+            exact ⟨hok.1, fun v hv => by cases hv⟩
+        · intro c hcm
+          rcases List.mem_cons.mp hcm with rfl | hcm
+          · right; trivial
+          · left; exact hcm
+      exact ihs.prep f (i + 1) es (prepLazySt s e) hg1 hw1' hok.2 r s' hex
+    have evalStep : Safe (do
+        let v ← evalCallExpr n e
+        pushData v
+        prepareArgs n f (i + 1) es : M Unit) s := by
+      refine Safe.bind (ihs.eval e s hg hw hok.1) (fun v s0 hev hg0 => ?_)
+      obtain ⟨hk, hv⟩ := ih.eval e s s0 v hw hok.1 hev
+      refine Safe.bind (fun r s' h => by rw [run_pushData] at h; cases h; exact res_ok _ (hg0.push v)) (fun _ s1 h1 hg1 => ?_)
+      rw [run_pushData] at h1
+      cases h1
+      refine ihs.prep f (i + 1) es _ hg1 ?_ hok.2
+      refine hk.wf.setData _ _ ?_
+      intro c hcm
+      rcases List.mem_cons.mp hcm with rfl | hcm
+      · exact cellOK_of_vok hv
+      · exact hk.wf.data c hcm
+    intro r s' hex
+    unfold VM.prepareArgs at hex
+    cases f with
+    | none =>
+      dsimp only at hex
+      simp only [Bool.false_eq_true, if_false] at hex
+      exact evalStep r s' hex
+    | some fo =>
+      dsimp only at hex
+      by_cases hl : (!fo.user && fo.hasLazyFormals && fo.isLazyCallArg i) = true
+      · simp only [hl, if_true] at hex
+        exact lazyStep r s' hex
+      · simp only [hl, if_false] at hex
+        exact evalStep r s' hex
 
 end ZygoVerif.RunInv
